@@ -24,7 +24,7 @@ def alarm(*a):
 
 
 signal.signal(signal.SIGALRM, alarm)
-signal.alarm(8)
+signal.alarm(30)
 w = mosaik.World({"S": {"cmd": f"%(python)s {HERE}/dying_sim.py %(addr)s"}}, skip_greetings=True)
 a = w.start("S", sim_id="A", die=die).M()
 b = w.start("S", sim_id="B").M()
